@@ -371,8 +371,11 @@ impl StoryState {
             list.origins.borrow_mut().clear();
 
             for name in &origin_names {
-                let def = self.list_definitions.get_list_definition(name).unwrap();
-                if !list.origins.borrow().iter().any(|e| std::ptr::eq(e, def)) {
+                // An origin name that no list definition carries (possible in a
+                // hand-made or damaged story or save) simply contributes no origin.
+                if let Some(def) = self.list_definitions.get_list_definition(name)
+                    && !list.origins.borrow().iter().any(|e| std::ptr::eq(e, def))
+                {
                     list.origins.borrow_mut().push(def.clone());
                 }
             }
